@@ -148,8 +148,11 @@ def judge(case, hline, mline, crash=None):
     team = case["hdr"][0] == "T"
     R = int(case["hdr"][2])
     if hline is None or hline.startswith("CRASH") or hline.startswith("EXC") or hline.startswith("BAD"):
-        viols.append(("sanitizer" if (hline or "").startswith("CRASH") or hline is None else "harness-error",
-                      "the real operators abort on this history: %s" % ((hline or "")[:80]), len(ops) - 1))
+        if (hline or "").startswith("CRASH rc=-14"):
+            viols.append(("hang", "the real operators do not terminate on this history (8 s limit per history)", len(ops) - 1))
+        else:
+            viols.append(("sanitizer" if (hline or "").startswith("CRASH") or hline is None else "harness-error",
+                          "the real operators abort on this history: %s" % ((hline or "")[:80]), len(ops) - 1))
         return diffs, viols, stats
     hrec = hline.split(" ; ")
     mrec = (mline or "").split(" ; ")
@@ -161,6 +164,7 @@ def judge(case, hline, mline, crash=None):
         return diffs, viols, stats
     if "wf_sset=1" not in mrec[0]:
         diffs.append((0, mrec[0], "symbol set rejected by wf_sset_b"))
+    okslot = {}
     for i, o in enumerate(ops):
         hd, hextra, hdump = hrec[i + 1].split(" # ")
         mf = mrec[i + 1].split(" # ")
@@ -172,8 +176,13 @@ def judge(case, hline, mline, crash=None):
             xt = hdump.split(" | ")[0].split()[5]
             key = "crossover_" + FLAVOURS[int(xt)]
             stats[key] = stats.get(key, 0) + 1
-        # ---- the property, judged on the implementation's output
-        if fl.get("wf") != "1":
+        # ---- the property, judged on the implementation's output; an operator is blamed
+        #      only when what it was given was well-formed
+        k = int(o[3]) if o[0] == "X" else int(o[1])
+        inputs = [] if o[0] == "N" else ([int(o[1]), int(o[2])] if o[0] == "X" else [k])
+        inputs_ok = all(okslot.get(x, True) for x in inputs)
+        okslot[k] = fl.get("wf") == "1"
+        if fl.get("wf") != "1" and inputs_ok:
             viols.append(("%s:ill-formed" % name,
                           "%s produced an individual that is not well-formed (ind_ok_b = false): %s" % (name, hdump[:300]), i))
         if fl.get("shape") != "1":
@@ -201,16 +210,48 @@ def judge(case, hline, mline, crash=None):
     return diffs, viols, stats
 
 
+def run_harness(exe, lines, max_restarts=25):
+    """line-protocol runner: when the harness dies on a line (sanitizer abort, time limit) that line
+    is marked CRASH and the harness is restarted on the rest; after max_restarts the remaining lines
+    are left unanswered (SKIPPED) -- the run already has its failing inputs"""
+    import subprocess
+    out = [None] * len(lines)
+    crashes = {}
+    start, restarts = 0, 0
+    env = vv.san_env()
+    while start < len(lines):
+        p = subprocess.run([exe], input="\n".join(lines[start:]) + "\n", env=env,
+                           stdout=subprocess.PIPE, stderr=subprocess.PIPE, text=True, errors="replace")
+        got = p.stdout.splitlines()
+        n = min(len(got), len(lines) - start)
+        for i in range(n):
+            out[start + i] = got[i]
+        if start + n >= len(lines):
+            if p.returncode != 0:          # every line answered, report at exit (LeakSanitizer)
+                crashes["exit"] = p.stderr
+            break
+        k = start + n
+        out[k] = "CRASH rc=%d" % p.returncode
+        crashes[k] = p.stderr
+        start = k + 1
+        restarts += 1
+        if restarts >= max_restarts:
+            for j in range(start, len(lines)):
+                out[j] = "SKIPPED"
+            break
+    return out, crashes
+
+
 def run_cases(harness, model, cases):
     hl = [case_line(c) for c in cases]
-    hout, crashes = pc.run_harness_resilient(harness, hl)
-    ml = ["%s @@ %s" % (l, h) for l, h in zip(hl, hout) if h and not h.startswith("CRASH")]
+    hout, crashes = run_harness(harness, hl)
+    ml = ["%s @@ %s" % (l, h) for l, h in zip(hl, hout) if h and not h.startswith("CRASH") and h != "SKIPPED"]
     rc, mo, merr = vv.run_lines(model, "\n".join(ml) + "\n")
     if rc != 0:
         raise vv.BuildError("model driver failed: rc=%s %s" % (rc, merr[:500]))
     mout, j = [], 0
     for h in hout:
-        if h and not h.startswith("CRASH"):
+        if h and not h.startswith("CRASH") and h != "SKIPPED":
             mout.append(mo[j] if j < len(mo) else None)
             j += 1
         else:
@@ -222,11 +263,22 @@ def shrink(harness, model, case, key):
     """smallest prefix / sub-history on which the same violation key still shows"""
     def bad(c):
         ho, mo, cr = run_cases(harness, model, [c])
+        if key == "sanitizer" and "exit" in cr:
+            return True
         d, v, s = judge(c, ho[0], mo[0])
         return any(k == key for k, _, _ in v)
     best = case
+    if key in ("hang", "sanitizer", "harness-error"):
+        # the process dies: only the shortest crashing prefix is searched (bisection)
+        lo, hi = 1, len(case["ops"])
+        while lo < hi:
+            mid = (lo + hi) // 2
+            if bad(dict(case, ops=case["ops"][:mid])):
+                hi = mid
+            else:
+                lo = mid + 1
+        return dict(case, ops=case["ops"][:lo])
     # prefix
-    lo = 1
     for n in range(1, len(case["ops"]) + 1):
         c = dict(case, ops=case["ops"][:n])
         if bad(c):
@@ -276,7 +328,7 @@ def run(ck):
         rp = json.load(open(ck.replay_path))
         cases = [rp["case"]] if "case" in rp else rp.get("cases", [])
     else:
-        n = 40000 if ck.thorough else 1500
+        n = 30000 if ck.thorough else 1500
         cases = []
         # boundaries of the proofs' case splits: 2 and 3 rows per flavour, patch = rows - 1, one category
         for fl in range(4):
@@ -294,7 +346,30 @@ def run(ck):
     hout, mout, crashes = run_cases(harness, model, cases)
     total = {}
     seen_v = set()
+    if "exit" in crashes:
+        # a sanitizer report at process exit (leak): bisect for the history that causes it
+        lo, hi = 0, len(cases)
+        while hi - lo > 1:
+            mid = (lo + hi) // 2
+            _, cr = run_harness(harness, [case_line(c) for c in cases[lo:mid]])
+            if "exit" in cr:
+                hi = mid
+            else:
+                lo = mid
+        culprit = cases[lo]
+        _, cr = run_harness(harness, [case_line(culprit)])
+        if "exit" in cr:
+            small = shrink(harness, model, culprit, "sanitizer")
+            ho, mo, cr2 = run_cases(harness, model, [small])
+            ck.add_violation("sanitizer", "the real operators leak or corrupt memory on this history (sanitizer report at exit)",
+                             {"case": small, "case_line": case_line(small), "implementation": ho[0],
+                              "sanitizer": (cr2.get("exit") or cr.get("exit") or "")[-2500:]})
+        else:
+            ck.add_violation("sanitizer", "sanitizer report at exit of the harness, not attributable to one history",
+                             {"sanitizer": crashes["exit"][-2500:]})
     for k, c in enumerate(cases):
+        if hout[k] == "SKIPPED":
+            continue
         ck.count()
         diffs, viols, stats = judge(c, hout[k], mout[k])
         for a, b in stats.items():
